@@ -15,7 +15,7 @@ Terms(e) == [j \in 1..Len(HashIdx(e)) |-> LET a == e.answers[HashIdx(e)[j]] IN <
 (* The digests themselves, recomputed here with Sha256.tla for every m-th event (IOEnv.CONCRETE = m; 0 / absent = none):
    a digest term <<"sha", parts>> denotes the SHA-256 of the concatenation of its parts -- hex strings, bytes, 32- and
    64-bit numbers given as 16-bit limbs, ASCII strings, nested terms, and references to the digest of a global hash jet,
-   which is recomputed from that jet's own term.  Checked for the global hash jets (the answer is the digest itself). *)
+   which is recomputed from that jet's own term.  Checked for the global hash jets (the answer is the digest itself) and the per-index ones (an optional digest). *)
 HX == INSTANCE Sha256
 Sample == IF "CONCRETE" \in DOMAIN IOEnv THEN atoi(IOEnv.CONCRETE) ELSE 0
 B16v(k) == [i \in 1..16 |-> (k \div (2 ^ (16 - i))) % 2]
@@ -39,8 +39,14 @@ PartsBits(parts, env, k) ==
 DigestBits(t, env) == HX!Sha256(PartsBits(t[2], env, 1))
 DigestsOk(e) ==
   (Sample > 0 /\ l % Sample = 0 /\ e.build = "ok") =>
-    \A k \in 1..Len(e.answers) : e.answers[k][1] \in GlobalHashJets =>
-       HX!HexBits(e.answers[k][3]) = DigestBits(JH(e.answers[k][1], e.desc, e.answers[k][2]), e.desc)
+    \A k \in 1..Len(e.answers) :
+       /\ e.answers[k][1] \in GlobalHashJets =>
+            HX!HexBits(e.answers[k][3]) = DigestBits(JH(e.answers[k][1], e.desc, e.answers[k][2]), e.desc)
+       \* the per-index hash jets answer with an option: absent beyond the range, else the digest
+       /\ e.answers[k][1] \in IndexHashJets =>
+            LET exp == JH(e.answers[k][1], e.desc, e.answers[k][2])
+                got == e.answers[k][3]
+            IN IF exp[1] = "R" THEN got[1] = "R" /\ HX!HexBits(got[2]) = DigestBits(exp[2], e.desc) ELSE got[1] = "L"
 Clauses(e) ==
   <<
    e.build = "ok",
